@@ -12,6 +12,7 @@ package types
 //@   ensures @fee_floor Amt(fee) == (Amt(amountToClaim) * dval(valFee)) / ONE
 //@   ensures @split Amt(finalClaim) + Amt(fee) == Amt(amountToClaim)
 //@   ensures @denoms finalClaim.Denom == amountToClaim.Denom && fee.Denom == amountToClaim.Denom
+//@   ensures @wellformed !isnil(finalClaim.Amount) && !isnil(fee.Amount) && Amt(fee) >= 0 && Amt(finalClaim) >= 0
 //@   hint Amt(amountToClaim) * dval(valFee) <= Amt(amountToClaim) * ONE
 //@   hint 0 <= Amt(amountToClaim) * dval(valFee)
 
@@ -36,6 +37,7 @@ package types
 //@   ensures @exact_rate UnixNs(nowTime) < UnixNs(depositZeroTime) ==> Amt(claim) == min(Amt(deposit), flowRate * secs)
 //@   ensures @conserve Amt(claim) + Amt(rem) == Amt(deposit) && Amt(rem) >= 0
 //@   ensures @denoms claim.Denom == deposit.Denom && rem.Denom == deposit.Denom
+//@   ensures @wellformed !isnil(claim.Amount) && !isnil(rem.Amount) && Amt(claim) >= 0
 
 // ---------------------------------------------------------------- store keys (byte level)
 
@@ -152,7 +154,7 @@ package types
 //@ ; a stream's deposit is part of the sum (consequence of all deposits being non-negative)
 //@ (assert (forall ((s (Array stream.Key (Slice Int))) (r BytesV) (sd BytesV))
 //@   (! (=> (and (STR_WF s) (strHas s r sd)) (<= (depOfBytes (select s (kStream r sd))) (depSum s (denomOfBytes (select s (kStream r sd))))))
-//@      :pattern ((STR_WF s) (select s (kStream r sd))))))
+//@      :pattern ((depSum s (denomOfBytes (select s (kStream r sd))))))))
 //@ ; the deposit suffices to sustain the flow from the last release to the advertised deposit-zero time (integer form of C11)
 //@ (define-fun rateOK ((x stream.Stream)) Bool
 //@   (or (= (Amt (stream.Stream.Deposit x)) 0)
